@@ -1,13 +1,19 @@
 """C01 Forward-mode AD values and Jacobians are exact.
 
-spec/ref/AdAlgebra.tla      dual numbers over exact rationals / symbolic terms, the calculus table, Eval(program, point)
-spec/ref/AdAlgebraEnum.tla  TLC enumerates ALL programs of depth <= 2 (depth 3 by -simulate) over the arithmetic forms,
-                            operand kinds and function instances of the catalogue, at every point; checks the ring laws
-spec/trace/J_AdAlgebra.tla  TLC judges what real AdArrays returned: rational entries exactly, term entries by the
-                            tolerance policy on the scaled difference to the numpy evaluation of the emitted term
+spec/ref/AdAlgebra.tla      dual numbers over exact rationals / closed symbolic terms, the calculus table (f, f'), the smooth
+                            domain analysis, Eval(program, point), the ring laws
+spec/ref/AdAlgebraEnum.tla  TLC enumerates ALL well-typed programs of depth <= 2 (depth 3 by -simulate) over the arithmetic
+                            forms, operand kinds and function instances of each configuration, at every point; emits the
+                            program + the required entries that are terms; checks the ring laws on the operands
+spec/trace/J_AdAlgebra.tla  TLC judges what real AdArrays returned (clauses Evaluates, Shape, Value, Jacobian): it recomputes
+                            Eval, compares rational entries exactly and term entries by the tolerance policy on the scaled
+                            difference to the numpy evaluation of the emitted term
 
 Python only builds the operands (initAdArrays, floats, ndarrays, scipy matrices, row keys, pp.ad.functions), runs the
-program on them, converts the doubles (codec.rat) and evaluates TLC's closed terms with numpy (no porepy involved)."""
+program on them, converts the doubles (codec.rat) and evaluates TLC's closed terms with numpy (no porepy involved).
+
+Recommended level: translation_validation (programs vs reference semantics); the algebraic fragment of the quick tier is an
+exhaustive enumeration within its bounds (coverage.exhaustive)."""
 from __future__ import annotations
 
 import math
@@ -101,7 +107,7 @@ def plans(quick):
     if quick:
         ex = [cfg("A-alg", [1], M=[1], S=[1], bin={"add", "mul", "div", "pow"}, un=ALLUN, law={"mul"}),
               cfg("A-pow", [2], F=[1], M=[2], bin={"pow", "mul"}, un={"matmul"}),
-              cfg("B-alg", [3], F=[4], A=[3], M=[3], S=[5, 6], bin={"sub", "mul", "div", "pow"}, un=ALLUN, law={"mul"}),
+              cfg("B-alg", [3], F=[4], A=[3], M=[3], S=[5, 6], bin=ALLBIN, un=ALLUN, law={"mul"}),
               cfg("F-fun", [4, 5], F=[1], M=[5], Fn=allfn, bin={"mul"}, un={"fn", "matmul"}),
               cfg("M-max", [1], F=[1], A=[1], M=[1, 2], bin={"max"}, un={"matmul", "neg"})]
         return ex, []
@@ -111,7 +117,7 @@ def plans(quick):
     Mx = cfg("M-max", [1, 2], F=[1, 2], A=[1], M=[1, 2], S=[1, 2], Fn=[15, 16], bin={"max", "mul"}, un={"neg", "matmul", "slice", "fn"})
     ex = [A,
           cfg("A-pow", [2], F=[1, 3], M=[2], bin={"pow", "mul", "div"}, un={"matmul", "neg"}, law={"mul"}),
-          cfg("B-alg", [3], F=[4, 1, 5], A=[2, 3], M=[3, 4], S=[5, 6, 7, 8], bin=ALLBIN, un=ALLUN, law={"mul"}),
+          cfg("B-alg", [3], F=[4, 1], A=[2, 3], M=[3, 4], S=[5, 6, 7, 8], bin=ALLBIN, un=ALLUN, law={"mul"}),
           cfg("F-fun1", [4, 5], F=[1, 2], M=[5], Fn=everyfn, bin={"add", "mul", "div", "pow"}, un={"fn", "matmul", "neg"}),
           F2, Mx,
           cfg("C-alg", [7], F=[1], M=[1], S=[1], bin={"sub", "mul", "div"}, un=ALLUN, law={"mul"}),
@@ -119,7 +125,7 @@ def plans(quick):
               un={"neg", "matmul", "slice", "fn"}, law={"mul"})]
     # -simulate checks the invariants (Emit) on ALL successors of the last step: every random pair of depth <= 2 subtrees
     # is emitted with every root operation
-    sim = [(dict(A, name="A-alg-d3", pts={1, 2}), 250), (dict(F2, name="F-fun-d3", pts={1, 6}), 150), (dict(Mx, name="M-max-d3"), 100)]
+    sim = [(dict(A, name="A-alg-d3", pts={1, 2}), 150), (dict(F2, name="F-fun-d3", pts={1, 6}), 80), (dict(Mx, name="M-max-d3"), 60)]
     return ex, sim
 
 
@@ -306,15 +312,19 @@ def sym_errors(out, sym):
     """scaled differences between the observed doubles and the numpy evaluation of the required terms;
     None if a term is outside double range (the case is then not judged)"""
     err = []
-    with np.errstate(all="ignore"):
-        for i, j, term in sym:
-            ref = tnum(term)
-            if np.isnan(ref):
-                raise RuntimeError(f"a required term evaluates to nan (the domain analysis of the spec is unsound): {term}")
-            if not np.isfinite(ref) or abs(ref) > 1e150:
+    for i, j, term in sym:
+        try:
+            with np.errstate(over="raise", invalid="raise", divide="raise", under="ignore"):
+                ref = float(tnum(term))
+        except FloatingPointError as e:
+            if "overflow" in str(e):
                 return None
-            x = out["float"]["val"][i - 1] if j == 0 else out["float"]["jac"][i - 1][j - 1]
-            err.append([i, j, scaled_err(x, float(ref))])
+            # log of a negative number, 0 / 0 ...: the spec emitted a term outside its domain
+            raise RuntimeError(f"a required term cannot be evaluated ({e}): the domain analysis of the spec is unsound: {term}")
+        if not np.isfinite(ref) or abs(ref) > 1e150:
+            return None
+        x = out["float"]["val"][i - 1] if j == 0 else out["float"]["jac"][i - 1][j - 1]
+        err.append([i, j, scaled_err(x, ref)])
     return err
 
 
@@ -446,7 +456,7 @@ def judge(ctx, cases, tag):
     """one TLC run of J_AdAlgebra on <= BATCH cases (the idiom of Ctx.judge, with a smaller heap)"""
     f = ctx.datafile(f"cases_{tag}.json", cases)
     m, cf = tlc.gen(ctx.work / tag, "MC_J_AdAlgebra", "J_AdAlgebra", CATALOGUE, spec="JSpec", invariants=CLAUSES)
-    res = ctx.tlc(m, cf, workers=5, env={"VERIF_CASES": f}, allow_violation=False, timeout=3000, heap="3g")
+    res = ctx.tlc(m, cf, workers=4, env={"VERIF_CASES": f}, allow_violation=False, timeout=3000, heap="3g")
     return res.records
 
 
@@ -478,7 +488,7 @@ def judge_all(ctx, progs, outs, prefix=""):
     if len(batches) <= 1:
         results = [one(b) for b in batches]
     else:
-        with ThreadPoolExecutor(max_workers=3) as ex:
+        with ThreadPoolExecutor(max_workers=4) as ex:
             results = list(ex.map(one, batches))
     for b, verdicts in results:
         for v in verdicts:
@@ -557,10 +567,14 @@ def run(ctx):
         "numpy's own ndarray.__add__ broadcasting over an AdArray is documented as unsupported",
         "RegularizedHeaviside is not covered: its Jacobian is by design that of the regularisation, not the true derivative",
     ]
+    import time
+
     ex_cfgs, sims = plans(ctx.quick)
+    T = [time.time()]
     # worker processes are forked before any thread exists
     with mp.get_context("fork").Pool(NPROC) as pool:
         pool.map(_warm, range(NPROC))
+        T.append(time.time())
         with ThreadPoolExecutor(max_workers=2 + len(sims)) as ex:
             tab = ex.submit(table_check, ctx)
             jobs = [ex.submit(enumerate_programs, ctx, "d2", ex_cfgs)]
@@ -572,8 +586,13 @@ def run(ctx):
             progs += pr
             for k, v in sk.items():
                 skipped[k] = skipped.get(k, 0) + v
+        T.append(time.time())
         outs = execute_all(pool, progs)
+        T.append(time.time())
     status = judge_all(ctx, progs, outs)
+    T.append(time.time())
+    ctx.extra["phase_wall_s"] = dict(zip(["fork_workers", "tlc_enumerate", "execute_programs", "tlc_judge"],
+                                         [round(b - a, 1) for a, b in zip(T, T[1:])]))
     per = {}
     for r, o, st in zip(progs, outs, status):
         e = per.setdefault(r["config"], dict(in_domain=0, judged=0, exact=0, symbolic=0, depth3=0))
@@ -586,12 +605,15 @@ def run(ctx):
         e["symbolic" if r["sym"] else "exact"] += 1
         e["depth3"] += d >= 3
         ctx.case(key=shape_key(CATALOGUE, r["t"]), nontrivial=d >= 1)
-    seen = set()
+    # samples: per configuration the middle program among those with two different operations
+    byc = {}
     for r, o, st in zip(progs, outs, status):
-        if st == "judged" and depth(r["t"]) >= 2 and (r["config"], bool(r["sym"])) not in seen and not o["error"] and len(ctx.samples) < 6:
-            seen.add((r["config"], bool(r["sym"])))
-            ctx.sample(dict(config=r["config"], expr=show(CATALOGUE, r["t"]), point=CATALOGUE["Points"][r["pt"] - 1],
-                            val=o["float"]["val"], jac=o["float"]["jac"], symbolic_entries=len(r["sym"])))
+        if st == "judged" and depth(r["t"]) >= 2 and not o["error"] and len(ops_in(r["t"]) - {"leaf", "const", "none", "id"}) >= 2:
+            byc.setdefault(r["config"], []).append((r, o))
+    for name, lst in byc.items():
+        r, o = lst[(2 * len(lst)) // 3]
+        ctx.sample(dict(config=name, expr=show(CATALOGUE, r["t"]), point=CATALOGUE["Points"][r["pt"] - 1],
+                        val=o["float"]["val"], jac=o["float"]["jac"], symbolic_entries=len(r["sym"])))
     ctx.extra["depth1_forms_judged"] = sorted({shape_key(CATALOGUE, r["t"]) for r, st in zip(progs, status)
                                                if st == "judged" and depth(r["t"]) == 1})
     ctx.programs = sum(e["judged"] for e in per.values())
